@@ -398,6 +398,19 @@ func (fr *frame) conv(t_dst, t_src types.Type, x value) value {
 			if b, ok := ut.Elem().Underlying().(*types.Basic); ok && b.Kind() == types.Byte {
 				return []value(append(symstr(nil), xv...))
 			}
+			if b, ok := ut.Elem().Underlying().(*types.Basic); ok && b.Kind() == types.Int32 {
+				// []rune(s): decode through the string iterator (ASCII symbolically)
+				it := &symstrIter{fr: fr, s: xv}
+				var out []value
+				for {
+					t := it.next()
+					if !t[0].(bool) {
+						break
+					}
+					out = append(out, t[2])
+				}
+				return out
+			}
 			panic(unsupported("[]rune(symbolic string)"))
 		case *types.Basic:
 			if ut.Kind() == types.String {
@@ -666,4 +679,48 @@ func (i *interpreter) toByte(fr *frame, v value) value {
 		return i.symConvInt(fr, s, types.Uint8)
 	}
 	return uint8(asInt64(v))
+}
+
+// Go's slice growth, reproduced so that spare capacity after append (and therefore aliasing
+// between old and new slices) is what the real runtime gives for the real element size.
+var sizeClasses = []int64{0, 8, 16, 24, 32, 48, 64, 80, 96, 112, 128, 144, 160, 176, 192, 208, 224, 240, 256, 288, 320, 352, 384, 416, 448, 480, 512, 576, 640, 704, 768, 896, 1024, 1152, 1280, 1408, 1536, 1792, 2048, 2304, 2688, 3072, 3200, 3456, 4096, 4864, 5376, 6144, 6528, 6784, 6912, 8192, 9472, 9728, 10240, 10880, 12288, 13568, 14336, 16384, 18432, 19072, 20480, 21760, 24576, 27264, 28672, 32768}
+
+func roundupsize(n int64) int64 {
+	for _, c := range sizeClasses {
+		if c >= n {
+			return c
+		}
+	}
+	// large: page multiple
+	return (n + 8191) / 8192 * 8192
+}
+
+func goAppendSized(a, b []value, esz int64) []value {
+	newLen := len(a) + len(b)
+	if newLen <= cap(a) {
+		return append(a, b...)
+	}
+	oldCap := int64(cap(a))
+	newcap := oldCap
+	doublecap := newcap + newcap
+	switch {
+	case int64(newLen) > doublecap:
+		newcap = int64(newLen)
+	case oldCap < 256:
+		newcap = doublecap
+	default:
+		for newcap < int64(newLen) {
+			newcap += (newcap + 3*256) / 4
+		}
+	}
+	if esz > 0 {
+		newcap = roundupsize(newcap*esz) / esz
+	}
+	if newcap < int64(newLen) {
+		newcap = int64(newLen)
+	}
+	out := make([]value, newLen, newcap)
+	copy(out, a)
+	copy(out[len(a):], b)
+	return out
 }
